@@ -152,6 +152,7 @@ Definition spec_event (tbl : list entry) (gone : list N) (l : list ssn) (ev : ev
                              n_role := n_role s |}
                      else s) l, [])
   | Dgrams ds => spec_dgrams (live_tbl tbl gone) l ds
+  | DgramsTunFail ds => (fst (spec_dgrams (live_tbl tbl gone) l ds), [])   (* accepted, but the TUN refused them: never written *)
   end.
 
 (* observed = some interleaving of the per-peer sequences *)
